@@ -100,6 +100,12 @@ REVERTS = [
  ('regress_c06_slash_in_key', 'C06', 'd8dfa0f'),
  ('regress_c18_myatof', 'C18', '68f828f'),
  ('regress_c10_ranges', 'C10', '64a8286'),
+ ('regress_c09_nul_in_target', 'C09', 'c501315'),
+ ('regress_c12_smartobject_self_assign', 'C12', '4930bdf'),
+ ('regress_c12_hashmap_self_assign', 'C12', '1629fae'),
+ ('regress_c12_smartobject_assign_order', 'C12', 'b18473b'),
+ ('regress_c12_array_assign_order', 'C12', 'ff27779'),
+ ('regress_c12_hashmap_assign_order', 'C12', 'c262c84'),
 ]
 
 
